@@ -559,7 +559,9 @@ pub fn run(ctx: &Ctx, rep: &mut Report) {
             if !failures.is_empty() {
                 break;
             }
-            total += enumerate_shape(reqs, prefill, hold, &mut st, &mut failures, cap);
+            // (with the extra parking point the larger shapes have millions of interleavings:
+            // they are explored up to a smaller cap, in lexicographic order of the schedule)
+            total += enumerate_shape(reqs, prefill, hold, &mut st, &mut failures, if hold { cap / 8 } else { cap });
         }
     }
     st.class_n("schedules enumerated exhaustively", total as u64);
